@@ -5,6 +5,7 @@
 -/
 import QSP.Proofs.LPoly
 import QSP.Model.Cheb
+import Mathlib.Data.List.TakeWhile
 import Mathlib.RingTheory.Polynomial.Chebyshev
 import Mathlib.Algebra.Polynomial.AlgebraMap
 import Mathlib.Algebra.Polynomial.Laurent
@@ -940,5 +941,56 @@ theorem polyToLaurentForm_refuses (ps : List ℚ) (i j : ℕ) (hi : ps.getD i 0 
   go_refuses ps 0 _ _ pwInv_zero (by simp [LP.zero, LP.mk']) i j hi hj hij
 
 end totality
+
+end QSP
+
+/-! ### NumPy's trailing-zero trimming in front of `poly2laurent` -/
+namespace QSP
+
+theorem exists_eq_trim_append (l : List ℚ) :
+    ∃ k, l = (l.reverse.dropWhile (· == 0)).reverse ++ zeros k := by
+  have h := List.takeWhile_append_dropWhile (p := (· == (0 : ℚ))) (l := l.reverse)
+  have hz : ∀ x ∈ (l.reverse.takeWhile (· == (0 : ℚ))), x = 0 := by
+    intro x hx
+    have := List.mem_takeWhile_imp hx
+    simpa using this
+  refine ⟨(l.reverse.takeWhile (· == (0 : ℚ))).length, ?_⟩
+  have h2 : l = (l.reverse.dropWhile (· == 0)).reverse ++ (l.reverse.takeWhile (· == (0 : ℚ))).reverse := by
+    have := congrArg List.reverse h
+    rw [List.reverse_append, List.reverse_reverse] at this
+    exact this.symm
+  have h3 : (l.reverse.takeWhile (· == (0 : ℚ))).reverse = zeros (l.reverse.takeWhile (· == (0 : ℚ))).length := by
+    have : l.reverse.takeWhile (· == (0 : ℚ)) = List.replicate (l.reverse.takeWhile (· == (0 : ℚ))).length 0 :=
+      List.eq_replicate_iff.mpr ⟨rfl, hz⟩
+    unfold zeros
+    rw [← List.reverse_replicate, ← this]
+  rw [← h3]; exact h2
+
+theorem toPoly_trimZeros (l : List ℚ) : toPoly (trimZeros l) = toPoly l := by
+  obtain ⟨k, hk⟩ := exists_eq_trim_append l
+  unfold trimZeros
+  split
+  · next heq =>
+    -- everything was zero: `l = zeros k`
+    rw [heq] at hk
+    simp only [List.nil_append] at hk
+    rw [hk]
+    cases k with
+    | zero => simp [zeros]
+    | succ k =>
+      have : (zeros (k + 1) : List ℚ).take 1 = zeros 1 := by simp [zeros, List.replicate_succ]
+      rw [this, toPoly_zeros, toPoly_zeros]
+  · next t ht =>
+    conv_rhs => rw [hk]
+    rw [toPoly_append_zeros]
+
+/-- the routine as the code runs it (NumPy trims trailing zeros first): the returned vector,
+    placed on powers `-d..d`, is exactly `p((w + 1/w)/2)` -/
+theorem den_poly2laurentNp (thr : ℚ) (ps l : List ℚ) (h : poly2laurentNp thr ps = .ok l)
+    (hdrop : ∀ c ∈ (if thr < maxAbs (odds (poly2cheb false (trimZeros ps)))
+      then evens (poly2cheb false (trimZeros ps)) else odds (poly2cheb false (trimZeros ps))), c = 0) :
+    denL l (-(l.length : ℤ) + 1) = Polynomial.aeval (cosW : ℚ[T;T⁻¹]) (toPoly ps) := by
+  rw [← toPoly_trimZeros ps]
+  exact den_poly2laurent_of_dropped thr (trimZeros ps) l h hdrop
 
 end QSP
